@@ -104,8 +104,10 @@ func Process(t parser.TemplateFile) (parser.TemplateFile, error) {
 	if err := eg.Wait(); err != nil {
 		return t, err
 	}
-	// Delete unused imports.
-	for _, imp := range firstGoNodeInTemplate.Imports {
+	// Delete unused imports. DeleteNamedImport removes the spec from
+	// firstGoNodeInTemplate.Imports, so range over a copy: ranging over the
+	// slice itself skips the import that follows each deleted one.
+	for _, imp := range slices.Clone(firstGoNodeInTemplate.Imports) {
 		if !containsImport(updatedImports, imp) {
 			name, path, err := getImportDetails(imp)
 			if err != nil {
